@@ -35,3 +35,67 @@ Print Assumptions C05_map_equiv.
 Theorem C05_flat_map_equiv : forall (sym_lt : sym -> sym -> Prop) (f : stmt -> list stmt) (P : list stmt), (forall st : stmt, In st P -> stmts_equiv sym_lt (st :: nil) (f st)) -> equiv_all sym_lt P (flat_map f P).
 Proof. exact (@flat_map_equiv). Qed.
 Print Assumptions C05_flat_map_equiv.
+
+From NGO Require Import Syntax.Ast Sem.Sym Sem.Sat Model.Normalize Link.NormalizeSpec.
+
+Theorem C05_expand_comparisons_stmt : forall (sym_lt : sym -> sym -> Prop) (st : stmt), cmp_ok_stmt st = true -> forall H T : interp, stmt_sat sym_lt H T st <-> stmt_sat sym_lt H T (expand_comparisons st).
+Proof. exact (@expand_comparisons_stmt_proof). Qed.
+Print Assumptions C05_expand_comparisons_stmt.
+
+Theorem C05_expand_comparisons_prog : forall (sym_lt : sym -> sym -> Prop) (P : list stmt), forallb cmp_ok_stmt P = true -> equiv_all sym_lt P (map expand_comparisons P).
+Proof. exact (@expand_comparisons_prog_proof). Qed.
+Print Assumptions C05_expand_comparisons_prog.
+
+Theorem C05_expand_comparisons_neg_chain_refuted : forall sym_lt : sym -> sym -> Prop, sym_order sym_lt -> cmp_ok_stmt negchain_rule = false /\ ~ stmt_sat sym_lt empty_interp empty_interp negchain_rule /\ stmt_sat sym_lt empty_interp empty_interp (expand_comparisons negchain_rule).
+Proof. exact (@expand_comparisons_neg_chain_refuted_proof). Qed.
+Print Assumptions C05_expand_comparisons_neg_chain_refuted.
+
+Theorem C05_remove_bounds_prog : forall sym_lt : sym -> sym -> Prop, sym_order sym_lt -> forall P Q : list stmt, remove_unecessary_bounds P = Ok Q -> equiv_all sym_lt P Q.
+Proof. exact (@remove_bounds_prog_proof). Qed.
+Print Assumptions C05_remove_bounds_prog.
+
+Theorem C05_count_to_sum_prog : forall (sym_lt : sym -> sym -> Prop) (P Q : list stmt), forallb no_old_agg_rule P = true -> replace_old_aggregates P = Ok Q -> equiv_all sym_lt P Q.
+Proof. exact (@count_to_sum_prog_proof). Qed.
+Print Assumptions C05_count_to_sum_prog.
+
+Theorem C05_preprocess_equiv : forall sym_lt : sym -> sym -> Prop, sym_order sym_lt -> forall P Q : list stmt, forallb preprocess_ok_stmt P = true -> preprocess P = Ok Q -> equiv_all sym_lt P Q.
+Proof. exact (@preprocess_equiv_proof). Qed.
+Print Assumptions C05_preprocess_equiv.
+
+Theorem C05_preprocess_passthrough : forall (P1 : list stmt) (st : stmt) (P2 Q : list stmt), passthrough_stmt st = true -> preprocess (P1 ++ st :: P2) = Ok Q -> exists Q1 Q2 : list stmt, preprocess P1 = Ok Q1 /\ preprocess P2 = Ok Q2 /\ Q = Q1 ++ st :: Q2.
+Proof. exact (@preprocess_passthrough_proof). Qed.
+Print Assumptions C05_preprocess_passthrough.
+
+From NGO Require Import Syntax.Ast Sem.Sym Sem.Sat Model.Normalize Link.SubstSpec.
+
+Theorem C05_exline_literal_sound : forall (sym_lt : sym -> sym -> Prop) (G G' : list string) (H T : interp) (s : subst) (sg : sign) (p : string) (pre : list term) (a : term) (post : list term) (e : bool) (AUX : string), negb (Globals.smem AUX (flat_map vars_term (pre ++ a :: post))) = true -> lit_sat sym_lt G H T s (Lit sg (ASym (TFun p (pre ++ a :: post) e))) <-> (exists v : sym, lit_sat sym_lt G' H T (upd s AUX v) (Lit sg (ASym (TFun p (pre ++ TVar AUX :: post) e))) /\ lit_sat sym_lt G' H T (upd s AUX v) (Lit NoSign (ACmp (TVar AUX) ((CEq, a) :: nil)))).
+Proof. exact (@exline_literal_sound). Qed.
+Print Assumptions C05_exline_literal_sound.
+
+Theorem C05_exline_rule_sound : forall (sym_lt : sym -> sym -> Prop) (G G' : list string) (H T : interp) (hl : lit) (B1 B2 : list bodyelem) (sg : sign) (p : string) (pre : list term) (a : term) (post : list term) (e : bool) (AUX : string), simple_lit_b hl = true -> forallb simple_bodyelem_b B1 = true -> forallb simple_bodyelem_b B2 = true -> negb (Globals.smem AUX (vars_lit hl ++ flat_map vars_bodyelem B1 ++ flat_map vars_term (pre ++ a :: post) ++ flat_map vars_bodyelem B2)) = true -> rule_sat sym_lt G H T (HLit hl) (B1 ++ BLit (Lit sg (ASym (TFun p (pre ++ a :: post) e))) :: B2) <-> rule_sat sym_lt G' H T (HLit hl) (B1 ++ BLit (Lit sg (ASym (TFun p (pre ++ TVar AUX :: post) e))) :: BLit (Lit NoSign (ACmp (TVar AUX) ((CEq, a) :: nil))) :: B2).
+Proof. exact (@exline_rule_sound). Qed.
+Print Assumptions C05_exline_rule_sound.
+
+Theorem C05_exline_arithmetic_rule_one_sound : forall (sym_lt : sym -> sym -> Prop) (ln : nat) (hl : lit) (B1 B2 : list bodyelem) (sg : sign) (n : string) (pre : list term) (a : term) (post : list term) (e : bool), simple_lit_b hl = true -> plain_lit hl = true -> forallb simple_bodyelem_b B1 = true -> forallb plain_bodyelem B1 = true -> forallb simple_bodyelem_b B2 = true -> forallb plain_bodyelem B2 = true -> is_arith a = true -> plain_terms pre = true -> plain_terms post = true -> has_pool_lit (Lit sg (ASym (TFun n (pre ++ a :: post) e))) = false -> let stm := SRule ln (HLit hl) (B1 ++ BLit (Lit sg (ASym (TFun n (pre ++ a :: post) e))) :: B2) in exists uv : string, let stm' := SRule ln (HLit hl) (B1 ++ BLit (Lit sg (ASym (TFun n (pre ++ TVar uv :: post) e))) :: BLit (assign uv a) :: B2) in exline_arithmetic_rule stm = Ok stm' /\ ~ In uv (vars_stmt stm) /\ (forall H T : interp, stmt_sat sym_lt H T stm <-> stmt_sat sym_lt H T stm').
+Proof. exact (@exline_arithmetic_rule_one_sound). Qed.
+Print Assumptions C05_exline_arithmetic_rule_one_sound.
+
+Theorem C05_inline_equality_sound_partial : forall (sym_lt : sym -> sym -> Prop) (G G' : list string) (H T : interp) (hl : lit) (B : list bodyelem) (E : lit) (x : string) (t : term), simple_lit_b hl = true -> forallb simple_bodyelem_b B = true -> In (BLit E) B -> equality E = Some (x, t) -> negb (Globals.smem x (vars_term t)) = true -> inline_safe x t (filter (keep_other (BLit E)) B) = true -> rule_sat sym_lt G H T (HLit hl) B <-> rule_sat sym_lt G' H T (HLit (inline_replace_lit x t hl)) (map (inline_replace_bodyelem x t) (filter (keep_other (BLit E)) B)).
+Proof. exact (@inline_equality_sound_partial). Qed.
+Print Assumptions C05_inline_equality_sound_partial.
+
+Theorem C05_inline_rule_sound : forall (sym_lt : sym -> sym -> Prop) (fuel : nat) (stm stm' : stmt), inline_checked fuel stm = true -> inline_rule_fuel fuel stm = Ok stm' -> forall H T : interp, stmt_sat sym_lt H T stm <-> stmt_sat sym_lt H T stm'.
+Proof. exact (@inline_rule_sound). Qed.
+Print Assumptions C05_inline_rule_sound.
+
+Theorem C05_inline_self_reference_refuted : forall sym_lt : sym -> sym -> Prop, inline_rule self_ref_rule = Ok self_ref_inlined /\ stmt_sat sym_lt (single "q" f_a) (single "q" f_a) self_ref_rule /\ ~ stmt_sat sym_lt (single "q" f_a) (single "q" f_a) self_ref_inlined.
+Proof. exact (@inline_self_reference_refuted). Qed.
+Print Assumptions C05_inline_self_reference_refuted.
+
+Theorem C05_inline_duplicate_equality_refuted : forall sym_lt : sym -> sym -> Prop, inline_rule dup_rule = Ok dup_inlined /\ negb (Globals.smem "X" (vars_term y_plus_1)) = true /\ stmt_sat sym_lt (single "q" c_sym) (single "q" c_sym) dup_rule /\ ~ stmt_sat sym_lt (single "q" c_sym) (single "q" c_sym) dup_inlined.
+Proof. exact (@inline_duplicate_equality_refuted). Qed.
+Print Assumptions C05_inline_duplicate_equality_refuted.
+
+Theorem C05_exline_head_converse_refuted : forall sym_lt : sym -> sym -> Prop, inline_replace_lit "AUX" x_plus_1 (p_of (TVar "AUX")) = p_of x_plus_1 /\ negb (Globals.smem "AUX" (vars_term x_plus_1 ++ vars_lit (q_of (TVar "X")))) = true /\ (forall G : list string, rule_sat sym_lt G T_qc T_qc (HLit (p_of (TVar "AUX"))) ((BLit (q_of (TVar "X")) :: nil) ++ BLit (assign "AUX" x_plus_1) :: nil) /\ ~ rule_sat sym_lt G T_qc T_qc (HLit (p_of x_plus_1)) (BLit (q_of (TVar "X")) :: nil)).
+Proof. exact (@exline_head_converse_refuted). Qed.
+Print Assumptions C05_exline_head_converse_refuted.
